@@ -26,7 +26,7 @@ for sid, m in metas.items():
     rows.append("| %s | %s | %s |" % (sid, desc[sid]["what"], ("**%s**" % ", ".join(det)) if det else "not detected — " + (desc[sid]["why_not"] or "behavioural")))
 cnt = {}
 for sid, m in metas.items():
-    rnd = {"A": 1, "B": 1, "C": 2, "D": 2, "E": 3, "F": 3, "G": 4, "H": 4, "I": 5, "J": 5}[sid[-1]]
+    rnd = {"A": 1, "B": 1, "C": 2, "D": 2, "E": 3, "F": 3, "G": 4, "H": 4, "I": 5, "J": 5, "K": 6, "L": 6}[sid[-1]]
     c = cnt.setdefault(rnd, [0, 0]); c[1] += 1; c[0] += bool(m.get("detected_by"))
 p = os.path.join(V, "DESIGN.md")
 s = open(p).read()
